@@ -12,21 +12,21 @@ import (
 
 func init() {
 	register(&propDef{
-		ID:    "C07",
-		Title: "Compilation is a deterministic, lossless function of the data file",
-		Run:   runC07,
+		ID:          "C07",
+		Title:       "Compilation is a deterministic, lossless function of the data file",
+		Run:         runC07,
 		Explanation: "Structural necessary conditions of lossless compilation, decided on SSA: (errors) every error produced inside the compile pipelines reaches the caller (no dropped error, so a rejected line fails the compilation in every mode); (nodrop) every scanned line is skipped only by the blank/comment test or handed to a worker, every converted record slice is forwarded, and every element of every received slice reaches the sink (Builder.ScheduleAdd, Batch.Add, cdb Put); (tail) the accumulator and feature records are emitted exactly once after all lines parsed successfully; (rmw) RocksDB read-modify-write sequences hold the write mutex from the read to the write, the accumulator is only touched under its mutex, and a batch handed to a goroutine is replaced before the next Add; (buckets) the bulk loader cuts buckets only where adjacent keys differ. Equality of the produced database with the codec output is not decided.",
 	})
 	register(&propDef{
-		ID:    "C08",
-		Title: "Applying a diff gives the database of the new data file",
-		Run:   runC08,
+		ID:          "C08",
+		Title:       "Applying a diff gives the database of the new data file",
+		Run:         runC08,
 		Explanation: "Structural necessary conditions of all-or-nothing diff application, decided on SSA: (atomic) ApplyDiff mutates the database through exactly one ExecuteBatch after the whole diff was parsed and the scanner reported no error; ExecuteBatch performs exactly one store-mutating call, after integrate succeeded and after the multi-get errors were scanned; (codec) ApplyDiff uses the compiler's codec initialiser and takes the key layout from the database; '+' maps to Batch.Add and '-' to Batch.Del and the operation set is exhaustive; (rmw, errors) as for compilation. Equality with a fresh compile is not decided.",
 	})
 	register(&propDef{
-		ID:    "C15",
-		Title: "RocksDB multi-value store behaves like a map of lists",
-		Run:   runC15,
+		ID:          "C15",
+		Title:       "RocksDB multi-value store behaves like a map of lists",
+		Run:         runC15,
 		Explanation: "Structural necessary conditions, decided on SSA: (rmw) Add/Del/ExecuteBatch hold the write mutex from the read to the write; (failfirst) every store-mutating call is dominated by the success edge of every preceding validation (missing key, missing value, integrate, multi-get); (single) one mutating call per operation; (codec) every encoder and decoder of the value list uses little-endian 32-bit lengths and a 4-byte header, including the skips in the db drivers; (sorted) the merge loops run only after the batch was sorted. Equivalence with the map-of-lists model and backup/restore are not decided.",
 	})
 }
@@ -111,6 +111,8 @@ func runC08(c *Ctx) {
 	c08Codec(c)
 	c07Rmw(c, "C08.rmw")
 	c07Errors(c, "C08.errors", c08Funcs)
+	c15SingleValue(c, "C08")
+	c15Unconditional(c, "C08")
 }
 
 func runC15(c *Ctx) {
@@ -118,6 +120,8 @@ func runC15(c *Ctx) {
 	c15FailFirst(c)
 	c15Codec(c)
 	c15Sorted(c)
+	c15SingleValue(c, "C15")
+	c15Unconditional(c, "C15")
 }
 
 var c07Funcs = [][2]string{
@@ -1361,7 +1365,6 @@ func c15Sorted(c *Ctx) {
 	c.Check(rule, "integrate|only-after-getAffectedKeys-on-the-same-batch", okc && len(callers) == 1, token.NoPos, fmt.Sprintf("callers: %v", callers))
 }
 
-
 // closureCallee resolves a dynamic call through a local function value to the function literal it invokes (nil if unknown).
 func closureCallee(ci ssa.CallInstruction) *ssa.Function {
 	cc := ci.Common()
@@ -1385,7 +1388,6 @@ func closureCallee(ci ssa.CallInstruction) *ssa.Function {
 	}
 	return out
 }
-
 
 // stableFnName names function literals by their parent and the position among the parent's literals that call
 // error-returning functions the same way, so that adding an unrelated literal does not rename obligations:
